@@ -140,3 +140,57 @@ Proof.
   unfold trace_inv_exact. induction evs as [|e r IH]; cbn [map qsum]; [reflexivity|].
   rewrite IH. setoid_replace (e + 1 + 0) with (e + 1) by ring. reflexivity.
 Qed.
+
+(* ---- (7) unit eigenvalues in Tr(Lambda^-1); selection of a resumed eigensystem ---- *)
+Lemma trace_inv_units evs k :
+  trace_inv_exact false (evs ++ repeat 1 k) == trace_inv_exact false evs + inject_Z (Z.of_nat k).
+Proof.
+  unfold trace_inv_exact. rewrite map_app, qsum_app.
+  assert (E : qsum (map (fun ev : Q => / (ev + 0)) (repeat 1 k)) == inject_Z (Z.of_nat k)).
+  { induction k as [|k IH]; [reflexivity|]. cbn [repeat map qsum]. rewrite IH, Nat2Z.inj_succ. unfold Z.succ.
+    rewrite inject_Z_plus. change (inject_Z 1) with 1. setoid_replace (/ (1 + 0)) with 1 by reflexivity. ring. }
+  rewrite E. reflexivity.
+Qed.
+
+Fixpoint all_ge (x : Q) (l : list Q) : Prop := match l with [] => True | y :: r => y <= x /\ all_ge x r end.
+Fixpoint desc (l : list Q) : Prop := match l with [] => True | x :: r => all_ge x r /\ desc r end.
+Lemma all_ge_insert x y l : all_ge x l -> y <= x -> all_ge x (insert_desc y l).
+Proof.
+  induction l as [|z r IH]; cbn [insert_desc all_ge]; [tauto|]. intros [A B] H.
+  destruct (Qle_bool z y); cbn [all_ge]; tauto.
+Qed.
+Lemma all_ge_trans x y l : y <= x -> all_ge y l -> all_ge x l.
+Proof. induction l as [|z r IH]; cbn [all_ge]; [tauto|]. intros H [A B]. split; [lra | auto]. Qed.
+Lemma insert_desc_sorted x l : desc l -> desc (insert_desc x l).
+Proof.
+  induction l as [|y r IH]; cbn [insert_desc desc all_ge]; [tauto|]. intros [A B].
+  destruct (Qle_bool y x) eqn:E.
+  - apply Qle_bool_iff in E. cbn [desc all_ge]. repeat split; auto. apply (all_ge_trans x y); assumption.
+  - assert (x < y) by (destruct (Qlt_le_dec x y) as [L|L]; [exact L | apply Qle_bool_iff in L; congruence]).
+    cbn [desc]. split; [apply all_ge_insert; [assumption | lra] | auto].
+Qed.
+Lemma sort_desc_sorted l : desc (sort_desc l).
+Proof. induction l; cbn [sort_desc]; [exact I | apply insert_desc_sorted; assumption]. Qed.
+Lemma insert_desc_In x y l : In y (insert_desc x l) <-> y = x \/ In y l.
+Proof.
+  induction l as [|z r IH]; cbn [insert_desc]; [cbn; intuition (subst; auto)|].
+  destruct (Qle_bool z x); cbn [In]; [intuition (subst; auto) | rewrite IH; intuition (subst; auto)].
+Qed.
+Lemma sort_desc_In y l : In y (sort_desc l) <-> In y l.
+Proof. induction l as [|x r IH]; cbn [sort_desc In]; [tauto | rewrite insert_desc_In, IH; intuition (subst; auto)]. Qed.
+(* every kept eigenvalue is >= every dropped one, whatever order the caller supplied them in *)
+Lemma resume_select_largest n evs x y :
+  In x (resume_select n evs) -> In y (skipn n (sort_desc evs)) -> y <= x.
+Proof.
+  unfold resume_select. generalize (sort_desc_sorted evs). generalize (sort_desc evs) as l. clear evs.
+  intro l; revert n; induction l as [|z r IH]; intros n D Hx Hy.
+  - rewrite firstn_nil in Hx. contradiction.
+  - destruct n as [|n]; [contradiction|]. cbn [firstn skipn In desc] in *. destruct D as [A D].
+    destruct Hx as [->|Hx]; [|apply (IH n); assumption].
+    assert (G : forall (l : list Q) (u : Q), all_ge x l -> In u l -> u <= x).
+    { clear. induction l as [|w l IHl]; cbn [all_ge In]; [tauto|]. intros u [B C] [E|H]; [subst; exact B | apply IHl; assumption]. }
+    apply (G r y A).
+    assert (S : forall (l : list Q) (m : nat) (u : Q), In u (skipn m l) -> In u l).
+    { clear. induction l as [|w l IHl]; intros [|m] u; cbn [skipn In]; try tauto. intro H. right. apply (IHl m u H). }
+    apply (S r n y Hy).
+Qed.
